@@ -19,9 +19,18 @@ var c18Palette = []string{"abc", "5", "%08.3lf", "(", "2023-01-01T00:00:00Z"}
 // operand variants: 0 int, 1 float, 2 bool, 3 empty, 4..8 strings, 9 bytes, 10 array, 11 map, 12 func, 13 error, 14 null, 15 absent
 const c18NVariants = 16
 
+// time-class functions divide symbolic epoch seconds by calendar constants, which no back end
+// decides within the cap: for them ints come from a boundary palette (concrete execution of the
+// real code under the engine; stated in the evidence as not solver-decided).
+var c18ConcreteInts = false
+
 func c18Operand(v int, tag string) *mlrval.Mlrval {
 	switch {
 	case v == 0:
+		if c18ConcreteInts {
+			is := []int64{0, -1, 1700000000, 9223372036854775807, -9223372036854775808}
+			return mlrval.FromInt(is[verifChoice(tag+"_i", len(is))])
+		}
 		return mlrval.FromInt(verifInt64(tag + "_i"))
 	case v == 1:
 		// boundary floats (concrete: the float library kernels are not the subject here)
@@ -36,10 +45,10 @@ func c18Operand(v int, tag string) *mlrval.Mlrval {
 	case v == 9:
 		return mlrval.FromBytes([]byte{0xff, 0x41})
 	case v == 10:
-		return mlrval.FromArray([]*mlrval.Mlrval{mlrval.FromInt(verifInt64(tag + "_a0")), mlrval.FromString("x")})
+		return mlrval.FromArray([]*mlrval.Mlrval{mlrval.FromInt(7), mlrval.FromString("x")})
 	case v == 11:
 		m := mlrval.NewMlrmap()
-		m.PutReference("k", mlrval.FromInt(verifInt64(tag+"_m0")))
+		m.PutReference("k", mlrval.FromInt(7))
 		m.PutReference("3", mlrval.FromString("v"))
 		return mlrval.FromMap(m)
 	case v == 12:
@@ -61,7 +70,12 @@ var c18Skip = map[string]bool{"system": true, "exec": true, "os_type": true, "ho
 	"systime": true, "systimeint": true, "sysntime": true, "uptime": true, "urand": true, "urandint": true, "urand32": true,
 	"urandrange": true, "urandelement": true,
 	// library digests and the reflection-based JSON decoder: outside the claim (DESIGN.md §5)
-	"md5": true, "sha1": true, "sha256": true, "sha512": true, "crc32": true, "json_decode": true}
+	"md5": true, "sha1": true, "sha256": true, "sha512": true, "crc32": true, "json_decode": true, "stat": true}
+
+func c18Begin(info *BuiltinFunctionInfo) {
+	verifObserveStr("fn", info.name)
+	c18ConcreteInts = info.class == FUNC_CLASS_TIME
+}
 
 func c18Table() []BuiltinFunctionInfo { return makeBuiltinFunctionLookupTable() }
 
@@ -79,6 +93,7 @@ func VerifC18_unary() {
 		verifReach("C18/bifs/skip")
 		return
 	}
+	c18Begin(&info)
 	v := verifChoice("k1", c18NVariants)
 	c18Result(info.unaryFunc(c18Operand(v, "a")), info.name)
 }
@@ -92,6 +107,7 @@ func VerifC18_binary() {
 		verifReach("C18/bifs/skip")
 		return
 	}
+	c18Begin(&info)
 	v1 := verifChoice("k1", c18NVariants)
 	v2 := verifChoice("k2", c18NVariants)
 	c18Result(info.binaryFunc(c18Operand(v1, "a"), c18Operand(v2, "b")), info.name)
@@ -107,6 +123,7 @@ func VerifC18_ternary() {
 		verifReach("C18/bifs/skip")
 		return
 	}
+	c18Begin(&info)
 	sub := []int{0, 1, 3, 4, 5, 10, 11, 15}
 	v1 := sub[verifChoice("k1", len(sub))]
 	v2 := sub[verifChoice("k2", len(sub))]
@@ -124,6 +141,7 @@ func VerifC18_variadic() {
 		verifReach("C18/bifs/skip")
 		return
 	}
+	c18Begin(&info)
 	sub := []int{0, 1, 3, 4, 5, 10, 11, 15}
 	n := verifChoice("nargs", 4)
 	if info.minimumVariadicArity > n || (info.maximumVariadicArity != 0 && n > info.maximumVariadicArity) {
